@@ -6,6 +6,7 @@ import json, logging
 from . import fakezmq
 
 CIDS = ['A', 'B', 'C', 'W']
+CID_FAMILIES = [CIDS, CIDS, ['cam', 'cam2', 'ca', 'cam21'], ['f1', 'f10', 'f', 'f11'], ['det_b', 'det', 'Det', 'det_'], ['W', 'Wu', 'Wu1', 'u1']]   # names that are prefixes of one another (client table key = id + connection uid)
 
 
 def gen_trial(rng, profile):
@@ -14,12 +15,13 @@ def gen_trial(rng, profile):
     nout = rng.choice([2, 3]) if bal else rng.choice([1, 1, 2])
     nclients = rng.randint(1, 4)
     clients = []
+    fam = rng.choice(CID_FAMILIES)
     for c in range(nclients):
         eph = 0 if rng.random() < (0.85 if bal else 0.6) else rng.choice([1, 1, 2])
-        clients.append({'cid': CIDS[c], 'uid': f'u{c}', 'eph': eph, 'out': rng.randrange(nout), 'prev': -1, 'seen': rng.random() < 0.3})
+        clients.append({'cid': fam[c], 'uid': f'u{c}', 'eph': eph, 'out': rng.randrange(nout), 'prev': -1, 'seen': rng.random() < 0.3})
     required = [c['cid'] for c in clients if c['eph'] == 0 and rng.random() < 0.4]
     if profile == 'sync0': required = []                  # C05 paired runs: internal id counter, nothing required (props/c05.py paired_oracle)
-    elif rng.random() < 0.1: required.append('Z')          # a required output that never shows up
+    elif rng.random() < 0.15: required.append(rng.choice(['Z'] + [x for x in fam if x not in [c['cid'] for c in clients]]))          # a required output that never shows up (possibly one whose name is a prefix / an extension of a client that does)
     ops = []
     t = 1000
     body = [0]
@@ -66,6 +68,7 @@ def gen_trial(rng, profile):
             body[0] += 1; ops.append({'k': 'oob', 'body': body[0]})
     ops.append({'k': 'destroy'})
     return {'profile': profile, 'nout': nout, 'balance': bal, 'required': required, 'ops': ops,
+            'switches': {'warn_older': rng.random() < 0.6, 'warn_newer': rng.random() < 0.6, 'debug': rng.random() < 0.15},
             'clients': [{k: c[k] for k in ('cid', 'uid', 'eph', 'out')} for c in clients]}
 
 
@@ -81,6 +84,8 @@ def decode_pub(out, msg):
 def run_impl(trial):
     w = fakezmq.World()
     Z = fakezmq.install(w)
+    sw = trial.get('switches') or {}        # logging-only switches of zeromq.py
+    Z.ZMQ_WARN_OLDER, Z.ZMQ_WARN_NEWER, Z.DEBUG_ZEROMQ = sw.get('warn_older', True), sw.get('warn_newer', True), sw.get('debug', False)
     log = []
     S = Z.ZMQSender([f'ipc://o{j}' for j in range(trial['nout'])], 'S', message_oob=lambda m: log.append({'k': 'oob', 'body': m[0]}),
                     balance=trial['balance'], outs_required=trial['required'])
@@ -209,7 +214,7 @@ def canon_model_calls(resp, n):
 
 def oracles(trial, calls):
     """Sender-side clauses on the implementation's observations."""
-    v = {'C02': [], 'C05': [], 'C07': [], 'C04': []}
+    v = {'C02': [], 'C05': [], 'C07': [], 'C04': [], 'C03': [], 'C06': []}
     last = None
     for outs in calls:
         pubs = [o for o in outs if o['k'] == 'pub' and o['mid'] >= 0]
@@ -238,6 +243,22 @@ def oracles(trial, calls):
                     v['C05'].append(('bal-eph-only-output-served', f"call #{k}: a frame set was published on balanced output {o} where only ephemeral listeners are attached, "
                                      f"while synchronised consumers are tracked on other outputs: they never see that frame"))
                     break
+    # required-output gate (C03 'no frame is lost, starting with the very first one'; C04/C06 wait for a required output): the client table is filled from
+    # request envelopes only, so a required output whose id no delivered request carried cannot be connected - nothing may be published before (push exempt)
+    asked, k = set(), 0
+    for op in trial['ops']:
+        if op['k'] == 'd':
+            if op['r']['mid'] >= -1: asked.add(op['r']['cid'])
+            continue
+        if k < len(calls) and op['k'] == 'c' and not op['push']:
+            pub = [o for o in calls[k] if o['k'] == 'pub' and o['mid'] >= 0]
+            miss = [r for r in trial['required'] if r not in asked]
+            if pub and miss:
+                v.setdefault('C03', []).append(('published-before-required-asked', f"call #{k}: id {pub[0]['mid']} published although required output(s) {miss} never sent a request "
+                                                f"(requests so far came from {sorted(asked)})"))
+                break
+        k += 1
+    v['C04'] += v.get('C03', []); v.setdefault('C06', []).extend(v.get('C03', []))
     pr = publish_needs_request(trial, calls)
     v['C04'] += pr
     if trial['balance']: v['C07'] += [('bal-output-not-ready', w) for _, w in pr]
